@@ -7,6 +7,7 @@ import (
 	"io"
 	"io/fs"
 	"log"
+	"maps"
 	"os"
 	"path/filepath"
 	"slices"
@@ -59,6 +60,7 @@ type Linter struct {
 	ignoreFiles          []string
 	customRuleModules    []*ast.Module
 	overriddenAggregates map[string][]report.Aggregate
+	ignoreDirectives     map[string]map[string][]string
 	useCollectQuery      bool
 	debugMode            bool
 	exportAggregates     bool
@@ -283,6 +285,16 @@ func (l Linter) WithAggregates(aggregates map[string][]report.Aggregate) Linter 
 	return l
 }
 
+// WithIgnoreDirectives supplies the inline ignore directives (file name -> row -> rule names) of files
+// linted in a previous run, as found in Report.IgnoreDirectives when WithExportAggregates is enabled.
+// Used together with WithAggregates, so that a run reporting on previously collected aggregates still
+// honours the ignore directives of the files those aggregates were collected from.
+func (l Linter) WithIgnoreDirectives(ignoreDirectives map[string]map[string][]string) Linter {
+	l.ignoreDirectives = ignoreDirectives
+
+	return l
+}
+
 // WithBaseCache sets the base cache (cache for "JSON" documents) to use for evaluation.
 // This feature is **experimental** and should not be relied on by external clients for
 // the time being.
@@ -411,7 +423,12 @@ func (l Linter) Lint(ctx context.Context) (report.Report, error) {
 	// the aggregate report must run whenever more than one file was linted, not only when some
 	// enabled rule happened to contribute aggregates
 	if len(allAggregates) > 0 || (len(l.overriddenAggregates) == 0 && len(input.FileNames) > 1) {
-		aggregateReport, err := l.lintWithRegoAggregateRules(ctx, &pq, allAggregates, regoReport.IgnoreDirectives)
+		// directives of files linted in this run take precedence over those provided from previous runs
+		ignoreDirectives := make(map[string]map[string][]string, len(l.ignoreDirectives)+len(regoReport.IgnoreDirectives))
+		maps.Copy(ignoreDirectives, l.ignoreDirectives)
+		maps.Copy(ignoreDirectives, regoReport.IgnoreDirectives)
+
+		aggregateReport, err := l.lintWithRegoAggregateRules(ctx, &pq, allAggregates, ignoreDirectives)
 		if err != nil {
 			return report.Report{}, fmt.Errorf("failed to lint using Rego aggregate rules: %w", err)
 		}
@@ -431,6 +448,10 @@ func (l Linter) Lint(ctx context.Context) (report.Report, error) {
 		for k, aggregates := range regoReport.Aggregates {
 			finalReport.Aggregates[k] = append(finalReport.Aggregates[k], aggregates...)
 		}
+
+		// aggregate violations are subject to the ignore directives of the file they are reported in,
+		// so whoever re-uses the aggregates (WithAggregates) needs these too (WithIgnoreDirectives)
+		finalReport.IgnoreDirectives = regoReport.IgnoreDirectives
 	}
 
 	if l.metrics != nil {
